@@ -8,6 +8,11 @@ os.environ.setdefault("TF_CPP_MIN_LOG_LEVEL", "3")
 import tensorflow as tf  # noqa: E402
 
 tf.get_logger().setLevel("ERROR")
+try:
+  tf.config.threading.set_intra_op_parallelism_threads(1)
+  tf.config.threading.set_inter_op_parallelism_threads(1)
+except RuntimeError:
+  pass
 import qkeras  # noqa: E402
 from qkeras import quantizers as Q  # noqa: E402
 
